@@ -51,9 +51,21 @@ macro_rules! plain { ($ctx:expr, $s:expr, $f:expr; $($t:ty),* $(,)?) => { $( ent
 macro_rules! small { ($ctx:expr, $s:expr, $f:expr; $($t:ty),* $(,)?) => { $( entry!($ctx, $s, $f, $t, zw=false, small=true, budget=24); )* } }
 macro_rules! zerow { ($ctx:expr, $s:expr, $f:expr; $($t:ty),* $(,)?) => { $( entry!($ctx, $s, $f, $t, zw=true, small=false, budget=24); )* } }
 
+#[path = "generated.rs"]
+pub mod generated;
+
 pub fn run_all(ctx: &mut Ctx, stream: &str) {
 	let filter_owned = std::env::var("VERIF_TYPE_FILTER").ok();
 	let f = filter_owned.as_deref();
+	if std::env::var("VERIF_ONLY_DERIVED").is_ok() {
+		// C05: generated definitions plus the hand-written derived types
+		generated::run_generated(ctx, stream, f);
+		plain!(ctx, stream, f; TwinU32, TwinU8, Named, Skipper, CompactFields, UsesCompactAs, Mixed, Tree, Chain, Transparent,
+			Generic<u8, u16>, Generic<String, TwinU32>, Vec<Mixed>, Option<Named>, Box<Chain>, Vec<Skipper>, BTreeMap<u8, Mixed>,
+			MelEnum, MelGen<u32>, MelGen<u64>, MelGen<u8>, Option<MelEnum>, [MelGen<u16>; 2], (MelEnum, CompactFields), Box<CompactFields>,
+			Compact<Wrapped>, Box<Transparent>, [Transparent; 2], UnitStruct);
+		return;
+	}
 	small!(ctx, stream, f; (), bool, OptionBool, u8, i8, Option<bool>, Result<bool, bool>, Compact<u8>, Compact<u16>,
 		Option<Option<bool>>, UnitStruct, PhantomData<u32>, Compact<()>);
 	plain!(ctx, stream, f;
@@ -87,6 +99,7 @@ pub fn run_all(ctx: &mut Ctx, stream: &str) {
 		MelEnum, MelGen<u32>, MelGen<u64>, MelGen<u8>, Option<MelEnum>, [MelGen<u16>; 2], (MelEnum, CompactFields), Box<CompactFields>,
 		Option<(u8, u16)>, Result<u32, (u8, u8)>, [(u8, bool); 3], Range<(u8, u8)>, Box<[u16; 4]>, Arc<(u8, u64)>, Rc<(u8, u64)>,
 	);
+	generated::run_generated(ctx, stream, f);
 	zerow!(ctx, stream, f; Vec<()>, VecDeque<()>, LinkedList<()>, Vec<UnitStruct>, Vec<PhantomData<u8>>, BTreeSet<()>,
 		Option<Vec<()>>, [(); 5], [UnitStruct; 3]);
 	#[cfg(feature = "full")]
